@@ -878,6 +878,16 @@ def _par_worker(args):
                     pass
             return unknown
 
+    # `budget_s` is an absolute deadline (time.time() based) shared by all partitions of the obligation: a partition that starts
+    # late gets what is left, one that starts after the deadline is not explored at all (reported as not exhausted)
+    if budget_s is not None:
+        left = budget_s - time.time()
+        if left <= 0:
+            r = Result()
+            r.exhausted = False
+            r.prefixes = None
+            return r
+        budget_s = max(1.0, left)
     r = explore(_PAR_FN, prefix=prefix, budget_s=budget_s, stop_on=stop_on, stop_flag=stop_flag)
     r.prefixes = None
     return r
@@ -908,7 +918,7 @@ def explore_parallel(fn, *, procs=16, depth=3, budget_s=None, known_keys=None):
         total.exhausted = top.exhausted and not top.inconclusive
         total.wall_s = time.time() - t0
         return total
-    remaining = None if budget_s is None else max(1.0, budget_s - (time.time() - t0))
+    remaining = None if budget_s is None else t0 + budget_s  # absolute deadline, see _par_worker
     stop_keys = None if known_keys is None else list(known_keys)
     import tempfile
 
